@@ -315,9 +315,10 @@ def plain_atoms(p, acc=None):
     return acc
 
 
-def same_value(a, b):
+def same_value(a, b, pinned=None):
     """True / False / None(undecided): symbolic identity, else agreement at three positive rational points
-    (identity testing; only for expressions whose structured atoms have a numeric model)."""
+    (identity testing; only for expressions whose structured atoms have a numeric model).  `pinned` maps atoms
+    to values that are kept at all three points (atoms whose sign / regime selected the branch being compared)."""
     a, b = to_poly(a), to_poly(b)
     if a == b:
         return True
@@ -325,6 +326,10 @@ def same_value(a, b):
     try:
         for seed in (3, 7, 11):
             pt = {n: Fraction(2 + ((i * 37 + seed * 13) % 23), 1 + ((i * 11 + seed) % 7)) for i, n in enumerate(names)}
+            if pinned:
+                for n in names:
+                    if dict.__contains__(pinned, n):
+                        pt[n] = Fraction(pinned[n])
             va, vb = float(a.evalf(pt)), float(b.evalf(pt))
             if abs(va - vb) > 1e-9 * max(1.0, abs(va), abs(vb)):
                 return False
@@ -741,6 +746,13 @@ class Interp:
         raise Undecided("truth value")
 
     def binop(self, op, a, b):
+        if self.externals.get("__elementwise__"):
+            from .listnp import T as _T, arith as _arith
+            if isinstance(a, _T) or isinstance(b, _T):
+                sym = {ast.Add: "+", ast.Sub: "-", ast.Mult: "*", ast.Div: "/", ast.Pow: "**"}.get(type(op))
+                if sym is None:
+                    raise Undecided(f"operator {type(op).__name__} on tensors")
+                return _arith(sym, a, b)
         if isinstance(a, (list, tuple)) and isinstance(b, (list, tuple)) and isinstance(op, ast.Add):
             return list(a) + list(b)
         if a is SHAPE or b is SHAPE:
@@ -855,6 +867,9 @@ class Interp:
         if isinstance(e, ast.UnaryOp):
             v = self.eval(e.operand)
             if isinstance(e.op, ast.USub):
+                if type(v).__name__ == "T":
+                    from .listnp import arith as _arith2
+                    return _arith2("*", v, Poly.const(-1))
                 return -to_poly(v)
             if isinstance(e.op, ast.UAdd):
                 return v
@@ -932,7 +947,10 @@ class Interp:
                     return base.slot(idx.elts[2].value)
                 raise Undecided("histogram set indexing")
             if isinstance(base, list) and isinstance(e.slice, ast.Tuple):
-                return _nd_get(base, self._index_tuple(e.slice))
+                r_ = _nd_get(base, self._index_tuple(e.slice))
+                if type(base).__name__ == "T" and isinstance(r_, list):
+                    r_ = type(base)(r_)
+                return r_
             if isinstance(e.slice, ast.Slice) or (isinstance(e.slice, ast.Tuple) and any(isinstance(x, ast.Slice) for x in e.slice.elts)):
                 if isinstance(base, Poly):
                     return base
